@@ -6,11 +6,13 @@ import (
 	"math/rand"
 	"os"
 	"sort"
+	"strconv"
 	"sync"
 	"sync/atomic"
 	"time"
 
 	bleve "github.com/blevesearch/bleve/v2"
+	"github.com/blevesearch/bleve/v2/document"
 	"github.com/blevesearch/bleve/v2/index/scorch"
 	index "github.com/blevesearch/bleve_index_api"
 )
@@ -261,6 +263,37 @@ func (r *Run) Submit(bs BatchSpec) (int, error) {
 		return bn, err
 	}
 	if err := r.Idx.Batch(batch); err != nil {
+		r.Rec.Emit("ReturnErr", map[string]any{"b": bn, "err": err.Error()})
+		return bn, err
+	}
+	r.Rec.Emit("Return", map[string]any{"b": bn})
+	return bn, nil
+}
+
+// SubmitDirect hands the batch to the scorch index itself (the index.Index API,
+// public as scorch.NewScorch / Batch / Close), bypassing bleve's indexImpl and
+// its lock: the only way a Close can arrive while safe batches are waiting for
+// their persistence.
+func (r *Run) SubmitDirect(bs BatchSpec) (int, error) {
+	r.submitMu.Lock()
+	r.nextB++
+	bs.B = r.nextB
+	r.Rec.Emit("Submit", map[string]any{"b": bs.B, "w": bs.W, "puts": strsAny(bs.Puts), "dels": strsAny(bs.Dels)})
+	r.submitMu.Unlock()
+	bn := bs.B
+	ib := index.NewBatch()
+	for _, id := range bs.Puts {
+		doc := document.NewDocument(id)
+		if err := r.Idx.Mapping().MapDocument(doc, DocVer(bs.B)); err != nil {
+			return bn, err
+		}
+		ib.Update(doc)
+	}
+	for _, id := range bs.Dels {
+		ib.Delete(id)
+	}
+	ib.SetInternal([]byte("seq"), []byte("i"+strconv.Itoa(bs.B)))
+	if err := r.Sc.Batch(ib); err != nil {
 		r.Rec.Emit("ReturnErr", map[string]any{"b": bn, "err": err.Error()})
 		return bn, err
 	}
